@@ -287,7 +287,15 @@ def interpreter_selftest(hook, text, limit=400):
 # ----------------------------------------------------------------------------------------
 # Coq side
 # ----------------------------------------------------------------------------------------
-PRELUDE = core.COQ_PRELUDE + "From FP Require Import Validate RefDec SelfTest.\nOpen Scope string_scope.\n"
+PRELUDE = core.COQ_PRELUDE + """From FP Require Import Validate RefDec Validated SelfTest SelfTestPass Quiet SelfTestQuiet.
+Open Scope string_scope.
+(* hypotheses of validated_selftest_passes[_quiet] (Proofs/SelfTestPass.v, SelfTestQuiet.v) that depend on the tested packet *)
+Definition guard_codes (reg : bool) (M : bmodel) (post : list nat) (path : string) : list nat :=
+  match packet_at M path with
+  | Some p => [if post_ok reg p post then 1 else 0; if no_nested_computed reg M p then 1 else 0]%nat
+  | None => [0; 0]%nat
+  end.
+"""
 
 
 def g_stores(st):
@@ -327,7 +335,10 @@ def coq_rows(mname, oname, tag, ents):
             terms.append("verdict_code (check_dec %s %s %s %s %s [])" % (reg, mname, oname, path, v))
         for reg in ("true", "false"):
             terms.append("outcome_code (selftest %s %s %s S_%s E_%s %s %s %s)" % (reg, mname, oname, tag, tag, post, path, v))
-        rows.append('join "," (map show_nat [%s])' % "; ".join(terms))
+        # the remaining hypotheses of the theorem validated_selftest_passes_quiet for this unit
+        extra = " ++ guard_codes true %s %s %s ++ guard_codes false %s %s %s ++ [if quiet %s S_%s fuel0 %s %s then 1 else 0]%%nat" % (
+            mname, post, path, mname, post, path, oname, tag, path, v)
+        rows.append('join "," (map show_nat ([%s]%s))' % ("; ".join(terms), extra))
         index.append(e["path"])
     return lines, rows, index
 
@@ -519,6 +530,11 @@ def main():
                                       % (pid, lang, mname, mname, oname))
                     mlines += lines
                     mlines.append('Eval vm_compute in ("<<<%s|%s>>>" ++ join ";" [%s]).' % (pid, lang, "; ".join(rows)))
+                    if True:
+                        # the hypotheses of validated_selftest_passes_quiet that do not depend on the unit
+                        mlines.append('Eval vm_compute in ("<<<%s|%s|hyp>>>" ++ show_bool (validate_enc %s %s) ++ show_bool (validate_dec_full %s %s) '
+                                      '++ show_bool (eqs_ok %s E_%s)).' % (pid, lang, mname, oname, mname, oname, mname, tag))
+                        case["theorem"] = True
                     case["index"] = index
         if len(mlines) > 1:
             groups.append((pid, mlines))
@@ -539,6 +555,8 @@ def main():
             blown.add(cid)            # killed by the time / memory limit
 
     # ------------------------------------------------------------------ verdicts
+    proved = collections.Counter()
+    proved_units = {}
     for (pid, lang), case in cases.items():
         if case["engine"] is None and "%s|%s|rep" % (pid, lang) in got:
             case["engine"] = dict(parse_rep(got["%s|%s|rep" % (pid, lang)]), _lang=lang)
@@ -547,9 +565,38 @@ def main():
         byp = {}
         for path, row in zip(case["index"], rows):
             byp[path] = [int(x) for x in row]
+        # ---- theorem validated_selftest_passes_quiet (coq/Proofs/SelfTestQuiet.v; with an empty store table it is
+        #      validated_selftest_passes of coq/Proofs/SelfTestPass.v): every evaluated unit
+        if case.get("theorem"):
+            hyp = got.get("%s|%s|hyp" % (pid, lang))
+            for path, c in byp.items():
+                if hyp is None or len(c) < 14:
+                    proved[(lang, "not evaluated")] += 1
+                    continue
+                common = [("validate_enc", hyp[0] == "T"), ("validate_dec_full", hyp[1] == "T"), ("typed", c[0] == 1)]
+                res = {}
+                for reg, lay, st_code, g in ((True, c[1], c[7], c[9:11]), (False, c[2], c[8], c[11:13])):
+                    hs = common + [("layout_defined", lay == 1), ("eqs_ok", hyp[2] == "T"),
+                                   ("quiet (the test reaches a packet with store-backs)", c[13] == 1),
+                                   ("post_ok", g[0] == 1), ("no_nested_computed", g[1] == 1)]
+                    failing = [n for n, ok in hs if not ok]
+                    res[reg] = failing
+                    if not failing and st_code != 0:
+                        coq_errors.append("theorem-contradicted: %s|%s|%s registered=%s: every hypothesis of validated_selftest_passes_quiet "
+                                          "evaluates to true, selftest evaluates to %s" % (pid, lang, path, reg, OUTCOMES.get(st_code, st_code)))
+                if not res[True] and not res[False]:
+                    key = "proved"
+                elif not res[False]:
+                    key = "proved for an unregistered checksum only (registered: %s)" % res[True][0]
+                else:
+                    key = "hypothesis fails: %s" % res[False][0]
+                proved[(lang, key)] += 1
+                proved_units[(pid, lang, path)] = key
         for e in case["ents"]:
             path = e["path"]
             V = {"problems": e["problems"]}
+            if (pid, lang, path) in proved_units:
+                V["theorem"] = proved_units[(pid, lang, path)]
             verdicts[(pid, lang, path)] = V
             if not e["emitted"]:
                 V["verdict"] = "NoTestEmitted"
@@ -628,6 +675,14 @@ def main():
     for lang in LANGS:
         print("  %-5s %s" % (lang, "  ".join("%s=%d" % (k[1].strip(), n) for k, n in sorted(counts.items()) if k[0] == lang)))
     print("interpreter self-test: mutations %d unnoticed %d" % (st_total, len(st_missed)))
+    n_thm = sum(proved.values())
+    print("theorem validated_selftest_passes_quiet (evaluated units: %d): proved to pass %s; not proved: %s" % (
+        n_thm, " ".join("%s=%d" % (l, proved[(l, "proved")]) for l in LANGS),
+        "; ".join("%s %s=%d" % (l, k, n) for (l, k), n in sorted(proved.items()) if k != "proved") or "-"))
+    n_pass_proved = sum(1 for k, key in proved_units.items() if key == "proved"
+                        and (verdicts[k].get("if_built") or verdicts[k]["verdict"]) in ("Pass", "MemberNotExercised"))
+    print("  of the %d proved units, %d have the verdict Pass / MemberNotExercised (the others do not build)" % (
+        sum(n for (l, k), n in proved.items() if k == "proved"), n_pass_proved))
     known_seen = collections.OrderedDict()
     new = []
     for pid, lang, fn, ln, old, mu in st_missed[:5]:
@@ -655,8 +710,8 @@ def main():
         print("NEW-DEVIATION lang=%s program=%s packet=%s :: %s" % (lang, where[0][0], where[0][1], text))
         if args.show:
             print("   dsl: " + texts[where[0][0]].replace("\n", "\\n")[:600])
-    for err in coq_errors[:2]:
-        print("NEW-DEVIATION coq evaluation failed: " + err)
+    for err in coq_errors[:4]:
+        print("NEW-DEVIATION " + ("" if err.startswith("theorem-contradicted") else "coq evaluation failed: ") + err)
     rep = {"tier": args.tier, "seed": args.seed, "programs": len(progs),
            "counts": {"%s %s" % k: n for k, n in sorted(counts.items())},
            "known_deviations_seen": {kid: {"description": alld[kid][3], "witness": alld[kid][4], "languages": sorted(set(l for l, _, _ in items)),
@@ -664,6 +719,10 @@ def main():
                                            "examples": [{"lang": l, "text": tx, "program": w[0][0], "packet": w[0][1]} for l, tx, w in items[:3]]}
                                      for kid, items in known_seen.items()},
            "new_deviations": [{"lang": l, "text": tx, "program": w[0][0], "packet": w[0][1], "dsl": texts[w[0][0]]} for l, tx, w in new],
+           "proved_units": {"theorem": "validated_selftest_passes_quiet (coq/Proofs/SelfTestQuiet.v; = validated_selftest_passes of coq/Proofs/SelfTestPass.v when the store table is empty; coq/Props/C17.v)",
+                            "scope": "every test unit with a sample and an IR; the hypothesis 'quiet' fails for tests that reach a packet whose encoder stores computed members back (Go, Java, Python)",
+                            "counts": {"%s: %s" % k: n for k, n in sorted(proved.items())},
+                            "per_language_proved": {l: proved[(l, "proved")] for l in LANGS}},
            "coq_errors": coq_errors, "interpreter_selftest": {"mutations": st_total, "unnoticed": len(st_missed)},
            "samples": [{"program": k[0], "lang": k[1], "packet": k[2], **{a: b for a, b in V.items() if a != "problems"}}
                        for k, V in list(verdicts.items()) if V.get("verdict") == "Pass"][:5],
